@@ -107,9 +107,12 @@ def ensure_runner():
         newest = max(os.path.getmtime(s) for s in srcs)
         if os.path.exists(RUNNER) and os.path.getmtime(RUNNER) >= newest:
             return True, ""
-        ok, out = build_coq_target("Extract/Extract.vo")
-        if not ok:
-            return False, out
+        dd = os.path.join(COQ, "Model")
+        for f in sorted(os.listdir(dd)):
+            if f.endswith(".v"):
+                ok, out = build_coq_target("Model/" + f + "o")
+                if not ok:
+                    return False, out
         rc, out, err = sh(["sh", "build.sh"], cwd=rd, timeout=900)
         return rc == 0, out + err
 
